@@ -245,18 +245,41 @@ def install(shim: Shim):
         cls = CountingFileFD if shim.expect.get("fd") else CountingFile
         return cls(shim, open(path, mode, *a, **kw))
 
-    ed.os = _Proxy(os, replace=replace, remove=remove, rmdir=rmdir)
+    def other(mod, fname):
+        real = getattr(mod, fname)
+
+        def f(*a, **kw):
+            shim.point([fname + "!"] + [canon(x) for x in a if isinstance(x, (str, os.PathLike))])
+            return real(*a, **kw)
+
+        return f
+
+    os_over = {n: other(os, n) for n in ("chmod", "rename", "renames", "unlink", "link", "symlink", "truncate", "chown", "utime")}
+    os_over.update(replace=replace, remove=remove, rmdir=rmdir)
+    sh_over = {n: other(shutil, n) for n in ("copyfile", "copy", "copy2", "copystat", "move", "rmtree")}
+    sh_over.update(copymode=copymode)
+    _SAVED.clear()
+    for n in ("os", "tempfile", "shutil", "open"):
+        _SAVED[n] = ed.__dict__.get(n, _MISSING)
+    ed.os = _Proxy(os, **os_over)
     ed.tempfile = _Proxy(tempfile, mkdtemp=mkdtemp)
-    ed.shutil = _Proxy(shutil, copymode=copymode)
+    ed.shutil = _Proxy(shutil, **sh_over)
     ed.open = sopen
+
+
+_MISSING = object()
+_SAVED: dict = {}
 
 
 def uninstall():
     from onnx_ir import external_data as ed
 
-    ed.os, ed.tempfile, ed.shutil = os, tempfile, shutil
-    if "open" in ed.__dict__:
-        del ed.__dict__["open"]
+    for n, v in list(_SAVED.items()):
+        if v is _MISSING:
+            ed.__dict__.pop(n, None)
+        else:
+            ed.__dict__[n] = v
+    _SAVED.clear()
 
 
 _SHIM: list = [None]
@@ -318,6 +341,31 @@ def _chunks_of(t: dict, chunk: int) -> list:
     raise ValueError(k)
 
 
+def _links(case: dict) -> dict:
+    return {n: (t, a) for n, t, a in case.get("links", [])}
+
+
+def resolve(case: dict, name: str) -> str:
+    """Root-relative real path of a root-relative name (symlink chains followed; independent of os.path.realpath)."""
+    links = _links(case)
+    for _ in range(16):
+        if name not in links:
+            return name
+        name = links[name][0]
+    return name
+
+
+def _chain_len(case: dict) -> int:
+    n, name, links = 0, case["dest"], _links(case)
+    while name in links and n < 16:
+        name, n = links[name][0], n + 1
+    return n
+
+
+def _rdest(case: dict) -> str:
+    return resolve(case, case["dest"])
+
+
 def _build(case: dict, root: str):
     """Create the directory content and the tensor objects. Returns (objs, exts, inomap, pre)."""
     import onnx_ir as ir
@@ -325,16 +373,17 @@ def _build(case: dict, root: str):
     inomap: dict = {}
     for name, f in case["pre"].items():
         p = os.path.join(root, name)
+        os.makedirs(os.path.dirname(p), exist_ok=True)
         if "link" in f:
             os.link(os.path.join(root, f["link"]), p)
         else:
             with open(p, "wb") as fh:
                 fh.write(bytes(f["bytes"]))
             os.chmod(p, f["mode"])
-    if case.get("symlink"):  # destination is a symlink to real/<dest>
-        os.mkdir(os.path.join(root, "real"))
-        os.rename(os.path.join(root, case["dest"]), os.path.join(root, "real", case["dest"]))
-        os.symlink(os.path.join("real", case["dest"]), os.path.join(root, case["dest"]))
+    for name, target, absolute in case.get("links", []):  # symlinks (chains), relative or absolute text
+        p = os.path.join(root, name)
+        os.makedirs(os.path.dirname(p), exist_ok=True)
+        os.symlink(os.path.join(root, target) if absolute else os.path.relpath(target, os.path.dirname(name) or "."), p)
     for name in case["pre"]:
         st = os.stat(os.path.join(root, name))
         inomap.setdefault(st.st_ino, len(inomap))
@@ -393,6 +442,10 @@ def _build(case: dict, root: str):
             o.c08_id = idx
             if e.get("mapped"):
                 o.tobytes()
+            try:
+                o.c08_ino = os.stat(o.path).st_ino
+            except (OSError, ValueError):
+                o.c08_ino = None
             exts.append((idx, o, e))
             return o
         raise ValueError(k)
@@ -404,39 +457,42 @@ def _build(case: dict, root: str):
     return objs, exts, inomap
 
 
+def _link_text(case: dict, root: str, name: str) -> str:
+    target, absolute = _links(case)[name]
+    return os.path.join("<ROOT>", target) if absolute else os.path.relpath(target, os.path.dirname(name) or ".")
+
+
 def _observe(case: dict, root: str, inomap: dict, exts, with_tensors=True) -> dict:
-    base = case["dest"]
-    files, tmp = {}, []
-    for name in sorted(os.listdir(root)):
-        p = os.path.join(root, name)
-        if name == "m.onnx":
-            continue
-        st = os.lstat(p)
-        if case.get("symlink") and name == "real":
-            for sub in sorted(os.listdir(p)):
-                if sub.startswith("." + base + ".") and os.path.isdir(os.path.join(p, sub)):
-                    tmp.append(["T", sorted(os.listdir(os.path.join(p, sub)))])
-            continue
-        if stat.S_ISLNK(st.st_mode):
-            try:
-                st = os.stat(p)
-            except OSError:
-                files[name] = "dangling"
+    """Regular files by root-relative path (inode identity, bytes, mode), symlinks (their text), leftover
+    temporary directories (any new dot-directory), anything else."""
+    files, tmp, links = {}, [], {}
+    known_dirs = {os.path.dirname(n) for n in list(case["pre"]) + [x[0] for x in case.get("links", [])]} - {""}
+
+    def walk(rel):
+        d = os.path.join(root, rel) if rel else root
+        for name in sorted(os.listdir(d)):
+            r = os.path.join(rel, name) if rel else name
+            p = os.path.join(root, r)
+            if r == "m.onnx":
                 continue
-        if stat.S_ISDIR(st.st_mode):
-            if name.startswith("." + base + ".") or any(name.startswith("." + j[0] + ".") for j in case.get("jobs", [])):
-                tmp.append(["T", sorted(os.listdir(p))])
+            st = os.lstat(p)
+            if stat.S_ISLNK(st.st_mode):
+                t = os.readlink(p)
+                links[r] = os.path.join("<ROOT>", os.path.relpath(t, root)) if os.path.isabs(t) else t
+            elif stat.S_ISDIR(st.st_mode):
+                if r in known_dirs:
+                    walk(r)
+                elif name.startswith("."):
+                    tmp.append(["T", sorted(os.listdir(p))])
+                else:
+                    files[r] = "dir"
             else:
-                files[name] = "dir"
-            continue
-        with open(p, "rb") as fh:
-            b = list(fh.read())
-        ino = inomap.get(st.st_ino, "new")
-        files[name] = [ino, b, stat.S_IMODE(st.st_mode)]
-    obs = {"files": files, "tmp": tmp}
-    if case.get("symlink"):
-        lp = os.path.join(root, base)
-        obs["symlink"] = os.path.islink(lp) and os.readlink(lp) == os.path.join("real", base)
+                with open(p, "rb") as fh:
+                    b = list(fh.read())
+                files[r] = [inomap.get(st.st_ino, "new"), b, stat.S_IMODE(st.st_mode)]
+
+    walk("")
+    obs = {"files": files, "tmp": tmp, "links": links}
     if with_tensors:
         obs["valid"] = [o.valid() for _, o, _ in exts]
         obs["mapped"] = [o.raw is not None for _, o, _ in exts]
@@ -448,6 +504,13 @@ def _observe(case: dict, root: str, inomap: dict, exts, with_tensors=True) -> di
             except Exception:
                 reads.append(None)
         obs["reads"] = reads
+        same = []
+        for _, o, _ in exts:
+            try:
+                same.append(o.c08_ino is not None and os.stat(o.path).st_ino == o.c08_ino)
+            except (OSError, ValueError):
+                same.append(False)
+        obs["backing_same"] = same
         # what unload_from_model kept in memory for the small external tensors = what the written
         # model file embeds for them
         embedded = {}
@@ -499,7 +562,8 @@ def run_real(case: dict, fault=None, mode="exn") -> dict:
         objs, exts, inomap = _build(case, root)
         core._EXTERNAL_TENSOR_COPY_CHUNK_SIZE = case.get("chunk", old_chunk)
         shim = Shim(fault, mode)
-        shim.expect = {"dir": os.path.join(root, "real") if case.get("symlink") else root, "base": case["dest"], "fd": case.get("file") == "fd"}
+        rd = _rdest(case)
+        shim.expect = {"dir": os.path.normpath(os.path.join(root, os.path.dirname(rd))), "base": os.path.basename(rd), "fd": case.get("file") == "fd"}
         if mode == "crash":
             sys.stdout.flush()
             sys.stderr.flush()
@@ -568,8 +632,11 @@ def _sharded_expect(shim: Shim, case: dict) -> None:
 # --------------------------------------------------------------------------- model side
 
 
+_CASE: list = [None]  # the case whose names are being resolved (symlink chains -> real names)
+
+
 def _ext_json(e):
-    return {"path": e["file"], "off": e["off"], "len": e["len"]}
+    return {"path": resolve(_CASE[0], e["file"]) if _CASE[0] else e["file"], "off": e["off"], "len": e["len"]}
 
 
 def _tensor_json(t, off, chunk):
@@ -590,6 +657,7 @@ def _layout(ts):
 
 def model_request(case: dict, faults: list) -> dict:
     chunk = case.get("chunk", 1 << 20)
+    _CASE[0] = case
     names = list(case["pre"].keys())
     inos: dict = {}
     files, inodes = [], []
@@ -607,12 +675,12 @@ def model_request(case: dict, faults: list) -> dict:
     mapped = [None] * nid
     for t in allext:
         if t["ext"].get("mapped"):
-            src = t["ext"]["file"]
+            src = resolve(case, t["ext"]["file"])
             mapped[t["id"]] = dict(files)[src]
-    universe = sorted(set(names) | {case["dest"]} | {j[0] for j in case.get("jobs", [])})
+    universe = sorted(set(names) | {_rdest(case)} | {j[0] for j in case.get("jobs", [])})
     req = {
         "m": "asave.run",
-        "dest": case["dest"],
+        "dest": _rdest(case),
         "newMode": 0o666 & ~_umask(),
         "cb": case["cb"],
         "files": files,
@@ -679,7 +747,7 @@ def _canon_model_state(st: dict, next0: int, exts_desc) -> dict:
 
 
 def _canon_real_tmp(obs: dict, case) -> list:
-    ok = {case["dest"]} | {j[0] for j in case.get("jobs", [])}
+    ok = {os.path.basename(_rdest(case))} | {j[0] for j in case.get("jobs", [])}
     return [["T", ["F"] if names else []] if (names == [] or (len(names) == 1 and names[0] in ok)) else ["T", names] for _, names in obs["tmp"]]
 
 
@@ -702,9 +770,17 @@ def expected_image(case: dict) -> list:
 def oracle(part, case: dict, obs: dict, fault, mode: str) -> None:
     """English property on the real directory and the real tensor objects."""
     where = f"{case['api']}{'[' + case['label'] + ']' if case.get('label') else ''}/{mode}@{_fault_name(obs, fault)}"
-    dest = case["dest"]
+    dest = _rdest(case)  # the file the (possibly symlinked) destination resolves to
     pre = case["pre"]
     tag = {"case": case, "fault": fault, "mode": mode}
+    # every pre-existing symlink is still the same symlink (a link stays a link)
+    for n in _links(case):
+        want = _link_text(case, "", n)
+        if obs.get("links", {}).get(n) != want:
+            part.fail(f"{where}:link-changed", f"pre-existing symlink {n!r} is no longer the same symlink", {**tag, "now": obs.get("links", {}).get(n, obs["files"].get(n))})
+    for n in obs.get("links", {}):
+        if n not in _links(case):
+            part.fail(f"{where}:stray-link", f"unexpected symlink {n!r} after the save", tag)
 
     def pre_bytes(n):
         f = pre[n]
@@ -734,6 +810,10 @@ def oracle(part, case: dict, obs: dict, fault, mode: str) -> None:
     replaced = any(ev[0].rstrip("!") == "replace" and not ev[-1] for ev in trace)
     cleanup_failed = any(ev[0].rstrip("!") in ("remove", "rmdir") and ev[-1] for ev in trace)
     raised = obs["raised"] is not None
+    failed_kinds = {ev[0].rstrip("!") for ev in trace if ev[-1]}
+    if raised and replaced and failed_kinds - {"remove", "rmdir", "invalidate"}:
+        # an effect that belongs to producing the new file failed, yet the rename had already happened
+        part.fail(f"{where}:raised-after-replace", "the save failed with an exception in a step other than clean-up although the destination had already been replaced (it no longer holds the previous bytes)", {**tag, "got": gotb})
     if raised and not replaced:
         if gotb != old or (got is not None and (got[0] == "new" or got[2] != pre[dest].get("mode", got[2]))):
             part.fail(f"{where}:dest-not-old", "save failed before the replace but the destination is not exactly as before", {**tag, "got": got})
@@ -750,10 +830,14 @@ def oracle(part, case: dict, obs: dict, fault, mode: str) -> None:
                 if obs.get("embedded", {}).get(t["name"]) != t["bytes"]:
                     part.fail(f"{where}:small-tensor-not-preserved", "a small external tensor was not copied to memory before the data file was replaced: the written model embeds other bytes", {**tag, "tensor": t["name"], "embedded": obs.get("embedded", {}).get(t["name"])})
     allext = [t for t in case["tensors"] if t["kind"] == "ext"] + case.get("bystanders", [])
-    for t, v, r in zip(allext, obs["valid"], obs["reads"]):
-        backed = dest in pre and _same_file(pre, t["ext"]["file"], dest)
+    for t, v, r, same in zip(allext, obs["valid"], obs["reads"], obs.get("backing_same", [False] * len(allext))):
+        tf = resolve(case, t["ext"]["file"])
+        backed = dest in pre and _same_file(pre, tf, dest)
         if not v and not (replaced and backed):
             part.fail(f"{where}:invalidated-without-replace", "an external tensor was invalidated although its backing file was not replaced", {**tag, "tensor": t["name"]})
+        if not v and same:
+            via = "hardlink" if tf != dest else "path"
+            part.fail(f"{where}:invalidated-backing-intact:{via}", "an external tensor was invalidated although its path still names the very inode it was backed by (its backing file was not replaced)", {**tag, "tensor": t["name"]})
         if raised and not replaced and backed:
             if not v or r != t["bytes"]:
                 part.fail(f"{where}:tensor-broken", "save failed before the replace but an external tensor backed by the destination is invalid or reads other bytes", {**tag, "tensor": t["name"], "read": r})
@@ -835,7 +919,7 @@ def check_case(part, case: dict, crash: bool = True, only=None) -> None:
         big = _big(case)
         chunk = case.get("chunk", 1 << 20)
         img = lean_batch([{"m": "asave.image", "tensors": [_tensor_json(t, off, chunk) for t, off in zip(big, _layout(big))]}])[0].get("r")
-        real_new = base_obs["files"].get(case["dest"])
+        real_new = base_obs["files"].get(_rdest(case))
         if base_obs["raised"] is None and (real_new is None or real_new[1] != img):
             part.disagree("image: model != bytes written by the fault-free save", {"case": case, "fault": None, "mode": "exn"}, img, real_new)
     reqs = [model_request(case, _as_list(f)) for f, mode, _ in runs if mode == "exn"] if use_model else []
@@ -857,14 +941,13 @@ def check_case(part, case: dict, crash: bool = True, only=None) -> None:
             mode=mode,
             compared_with_model=use_model,
             variant=case.get("label", "plain"),
-            dest_exists=case["dest"] in case["pre"],
+            dest_exists=_rdest(case) in case["pre"],
+            link_chain=_chain_len(case),
             kinds="+".join(sorted({t["kind"] for t in case["tensors"]})),
             fault_at=_fault_name(obs if "trace" in obs else {"trace": trace0}, f),
             n_effects=min(len(trace0), 40) // 5 * 5,
         )
         oracle(part, case, obs, f, mode)
-        if "symlink" in obs:
-            part.count(f"symlink_preserved={obs['symlink']}")
         if not use_model:
             continue
         mo = by_fault.get(f)
@@ -1053,13 +1136,56 @@ def gen_variant(rng) -> dict:
     if r < 0.4:
         case["workers"] = rng.choice([2, 3])
         case["label"] = "parallel"
-    elif r < 0.75 or case["dest"] not in case["pre"] or "hard.data" in case["pre"]:
+    else:
         case["file"] = "fd"
         case["label"] = "fd"
-    else:
-        case["symlink"] = True
-        case["label"] = "symlink"
     return case
+
+
+def gen_links(rng) -> dict:
+    """The destination is reached through a chain of 0..3 symlinks (relative or absolute text, targets in
+    sub-directories); external tensors read the data file through the requested name, an intermediate link,
+    the real file, or a hard link."""
+    api = rng.choice(["save", "convert"])
+    dest = rng.choice(["model.data", "m.data"])
+    real = rng.choice(["weights-v1.bin", "sub/weights-v1.bin", "store/w.bin"])
+    chain = rng.choice([0, 1, 1, 2, 2, 3])
+    mids = rng.sample(["current.data", "sub/alias.data", "store/latest.data"], max(chain - 1, 0))
+    names = [dest] + mids + [real] if chain else [dest]
+    realname = names[-1]
+    fb = [rng.randrange(256) for _ in range(rng.choice([4, 12, 30]))]
+    pre = {realname: {"bytes": fb, "mode": rng.choice([0o644, 0o600, 0o640])}}
+    links = [[names[i], names[i + 1], rng.random() < 0.3] for i in range(len(names) - 1)]
+    hard = rng.random() < 0.3
+    if hard:
+        pre["hard.data"] = {"link": realname}
+    if rng.random() < 0.4:
+        pre["other.data"] = {"bytes": [rng.randrange(256) for _ in range(6)], "mode": 0o644}
+    tensors = []
+    for i in range(rng.choice([1, 2, 3])):
+        k = rng.choice(["ext", "ext", "mem", "chunky", "lazy"])
+        t = {"kind": k, "name": f"t{i}", "id": i}
+        if k == "ext":
+            src = rng.choice(names + (["hard.data"] if hard else []) + (["other.data"] if "other.data" in pre else []))
+            b = pre["other.data"]["bytes"] if src == "other.data" else fb
+            ln = rng.randrange(1, len(b) + 1)
+            off = rng.randrange(0, len(b) - ln + 1)
+            t["ext"] = {"file": src, "off": off, "len": ln, "mapped": rng.random() < 0.5, "abs": hard and src != "other.data"}
+            t["bytes"] = b[off : off + ln]
+        else:
+            n = rng.choice([1, 3, 7, 16])
+            t["bytes"] = [rng.randrange(256) for _ in range(n)]
+            if k == "chunky":
+                c = rng.randrange(1, n + 1)
+                t["sizes"] = [c, n - c] if n - c else [c]
+        tensors.append(t)
+    case = {"api": api, "dest": dest, "pre": pre, "links": links, "tensors": tensors, "threshold": rng.choice([0, 0, 2]) if api == "save" else 0,
+            "cb": rng.random() < 0.3, "chunk": rng.choice([4, 1 << 20]), "label": f"chain{chain}"}
+    if rng.random() < 0.4:
+        src = rng.choice(names)
+        ln = rng.randrange(1, len(fb) + 1)
+        case["bystanders"] = [{"kind": "ext", "name": "by", "id": 99, "bytes": fb[:ln], "ext": {"file": src, "off": 0, "len": ln, "mapped": rng.random() < 0.5, "abs": hard}}]
+    return finalize(case)
 
 
 def gen_nul(rng) -> dict:
@@ -1221,6 +1347,8 @@ def run(ctx: Ctx) -> None:
         cases.append(gen_nul(ctx.rng))
     for _ in range(ctx.pick(14, 120)):
         cases.append(gen_variant(ctx.rng))
+    for _ in range(ctx.pick(24, 200)):
+        cases.append(gen_links(ctx.rng))
     base = tempfile.mkdtemp(prefix="c08run-")
     try:
         wp = Part()
